@@ -8,14 +8,13 @@ namespace Gql.EndToEnd
 open Gql Gql.Load
 
 /-- `WPSchema` of a loaded schema: the prelude is part of the document, union definitions carry no
-    fields (parser), root types are objects (the recorded non-object-root finding) -/
+    fields (parser).  (Root types are objects: an invariant of `load` since the repair of the root kinds.) -/
 theorem loaded_wpSchema {sd : SchemaDoc} {s : Schema} (h : load sd = .ok s) (hp : PreludeDeclared sd)
-    (hku : KindFieldless .union sd) (hroots : Gql.Spec.rootTypesAreObjects s = true) : WPSchema s :=
-  { fieldTypes := (loaded_closed h (preludeDeclared_introspection hp)
-      (queryRootNotKind_of_rootsObjects h hroots (by decide))).fieldTypes
+    (hku : KindFieldless .union sd) : WPSchema s :=
+  { fieldTypes := (loaded_closed h (preludeDeclared_introspection hp)).fieldTypes
     string := loaded_declares h (preludeDeclared_introspection hp).string
-    unions := loaded_unions_no_fields h hku (queryRootNotKind_of_rootsObjects h hroots (by decide))
-    roots := hroots }
+    unions := loaded_unions_no_fields h hku
+    roots := loaded_rootTypesAreObjects h }
 
 #print axioms loaded_wpSchema
 
